@@ -12,8 +12,14 @@ case "$prop" in
   *) echo "unknown driver $prop"; exit 2;;
 esac
 mkdir -p bin
-cat > bin/overlay_$prop.json <<EOT
-{"Replace": {"$REPO/$pkg/zz_verif_driver_test.go": "$VERIF_DIR/drivers/$drv"}}
+# the driver file is added to the package; copies of storage files whose lock hooks had
+# to be re-attached (bin/overlay_norm.json, written by run.sh build) are merged in
+python3 - "$REPO/$pkg/zz_verif_driver_test.go" "$VERIF_DIR/drivers/$drv" "$VERIF_DIR/bin/overlay_norm.json" > bin/overlay_$prop.json <<'EOT' || { echo "HARNESS-TROUBLE: overlay"; exit 2; }
+import json, os, sys
+rep = {sys.argv[1]: sys.argv[2]}
+if os.path.exists(sys.argv[3]):
+    rep.update(json.load(open(sys.argv[3])).get("Replace", {}))
+print(json.dumps({"Replace": rep}))
 EOT
 { cat "$REPO/go.mod"; echo; echo "require verif/sim v0.0.0"; echo "replace verif/sim => $VERIF_DIR/sim"; } > bin/repo.alt.mod
 cp "$REPO/go.sum" bin/repo.alt.sum
